@@ -269,7 +269,8 @@ def subsetComposite (flags : Nat) (gmap : Nat → Option Nat) (d : Bytes) : Byte
   | none => []
   | some (out, i, whi) =>
     if whi ∧ !hasFlag flags F_NO_HINTING then
-      if i + 1 ≥ len then [] else
+      -- fix 0b24b65: a record without room for the instruction length is kept up to its last component
+      if i + 1 ≥ len then out.take i else
       out.take (i + 2 + u16At out i)
     else out.take i
 
